@@ -24,23 +24,23 @@ Diffs(ev, o) ==
          \cup (IF c.v # e.v THEN {"var"} ELSE {})
 
 TStep ==
-    /\ vkind = "" /\ l <= Len(T.steps) /\ l' = l + 1 /\ UNCHANGED tid
-    /\ LET ev == T.steps[l].in  o == T.steps[l].out IN
+    /\ vkind = "" /\ l <= Len(Tr.steps) /\ l' = l + 1 /\ UNCHANGED tid
+    /\ LET ev == Tr.steps[l].in  o == Tr.steps[l].out IN
        IF ev.e = "raised"
        THEN /\ UNCHANGED savars /\ UNCHANGED seen
-            /\ Verdict("MISMATCH", [v |-> "MISMATCH", tid |-> T.id, l |-> l, clauses |-> {"raised"}, br |-> <<>>,
+            /\ Verdict("MISMATCH", [v |-> "MISMATCH", tid |-> Tr.id, l |-> l, clauses |-> {"raised"}, br |-> <<>>,
                                     exp |-> [raised |-> FALSE], obs |-> o])
        ELSE IF ~EvEnabled(ev)
        THEN /\ UNCHANGED savars /\ UNCHANGED seen
-            /\ Verdict("STUCK", [v |-> "STUCK", tid |-> T.id, l |-> l, ev |-> ev])
+            /\ Verdict("STUCK", [v |-> "STUCK", tid |-> Tr.id, l |-> l, ev |-> ev])
        ELSE /\ EvNext(ev)
             /\ seen' = seen \cup ToSet(br')
             /\ LET d == Diffs(ev, o) IN
                IF d # {}
-               THEN Verdict("MISMATCH", [v |-> "MISMATCH", tid |-> T.id, l |-> l, clauses |-> d, br |-> br',
+               THEN Verdict("MISMATCH", [v |-> "MISMATCH", tid |-> Tr.id, l |-> l, clauses |-> d, br |-> br',
                                          exp |-> [cb |-> out', dur |-> dur', v |-> uv'], obs |-> o])
-               ELSE IF l = Len(T.steps)
-               THEN Verdict("ACCEPT", [v |-> "ACCEPT", tid |-> T.id, n |-> l, seen |-> seen'])
+               ELSE IF l = Len(Tr.steps)
+               THEN Verdict("ACCEPT", [v |-> "ACCEPT", tid |-> Tr.id, n |-> l, seen |-> seen'])
                ELSE NoVerdict
 TSpec == TInit /\ [][TStep]_tvars
 =============================================================================
